@@ -82,27 +82,34 @@ func (h *Harness) progress(run int, phase string) {
 	}
 }
 
-// solo executes every step of every task program alone: fresh package state, freshly loaded
-// fonts, no recycling. This is "the result it returns when run alone".
-func (h *Harness) solo(spec *RunSpec, seedOf func(t int) uint64) ([][]Result, []uint64, error) {
+// solo executes every call of every task program alone: fresh package state, freshly loaded
+// fonts, no recycling. This is "the result it returns when run alone". only (if not nil) selects
+// the calls to execute; multi[t][s] reports whether the call ranged over a map with >= 2 keys.
+func (h *Harness) solo(spec *RunSpec, seedOf func(t int) uint64, only [][]bool) ([][]Result, [][]bool, error) {
 	res := make([][]Result, len(spec.Tasks))
-	ranges := make([]uint64, len(spec.Tasks))
+	multi := make([][]bool, len(spec.Tasks))
 	for t := range spec.Tasks {
 		order := simrt.NewRand(seedOf(t))
-		simrt.ResetRangeCounts()
+		res[t] = make([]Result, len(spec.Tasks[t].Steps))
+		multi[t] = make([]bool, len(spec.Tasks[t].Steps))
 		for s := range spec.Tasks[t].Steps {
+			if only != nil && !only[t][s] {
+				continue
+			}
 			resetGlobals()
-			env, err := NewEnv(h.Resources, h.FontDir, spec.Fonts)
+			env, err := NewEnv(h.Resources, h.FontDir, spec.Fonts, true)
 			if err != nil {
 				return nil, nil, err
 			}
+			simrt.ResetRangeCounts()
 			simrt.SetSoloOrder(order)
-			res[t] = append(res[t], ExecStep(env, &spec.Tasks[t].Steps[s]))
+			res[t][s] = ExecStep(env, &spec.Tasks[t].Steps[s])
 			simrt.SetSoloOrder(nil)
+			_, m := simrt.RangeCounts()
+			multi[t][s] = m > 0
 		}
-		_, ranges[t] = simrt.RangeCounts()
 	}
-	return res, ranges, nil
+	return res, multi, nil
 }
 
 // Execute runs the reference phases and the simulation phase of one run and applies the oracles.
@@ -130,7 +137,7 @@ func (h *Harness) Execute(spec *RunSpec) (*RunReport, *Outcome, error) {
 
 	// ---- reference: every task alone, recycling off
 	h.progress(spec.Run, "ref")
-	ref, ranges, err := h.solo(spec, func(t int) uint64 { return spec.Tasks[t].MapSeed })
+	ref, multi, err := h.solo(spec, func(t int) uint64 { return spec.Tasks[t].MapSeed }, nil)
 	if err != nil {
 		return nil, nil, err
 	}
@@ -144,29 +151,33 @@ func (h *Harness) Execute(spec *RunSpec) (*RunReport, *Outcome, error) {
 	}
 	rep.RefCPUms = cpuMS() - cpu0
 
-	// ---- O4 determinism: alone again under a different map iteration order
-	anyRanges := false
-	for _, n := range ranges {
-		if n > 0 {
-			anyRanges = true
+	// ---- O4 determinism: the calls that ranged over a map with >= 2 keys, alone again under a
+	// different (legal) map iteration order
+	anyMulti := false
+	for _, ms := range multi {
+		for _, m := range ms {
+			anyMulti = anyMulti || m
 		}
 	}
-	if anyRanges {
+	if anyMulti {
 		h.progress(spec.Run, "ref2")
-		ref2, _, err := h.solo(spec, func(t int) uint64 { return simrt.Mix(spec.MapSeed2, uint64(t)) })
+		ref2, _, err := h.solo(spec, func(t int) uint64 { return simrt.Mix(spec.MapSeed2, uint64(t)) }, multi)
 		if err != nil {
 			return nil, nil, err
 		}
 		out.Ref2 = ref2
 		for t := range ref {
 			for s := range ref[t] {
-				if !ref[t][s].Equal(ref2[t][s]) {
+				if multi[t][s] && !ref[t][s].Equal(ref2[t][s]) {
 					op := spec.Tasks[t].Steps[s].Op
+					rep.DetChecked++
 					rep.Violations = append(rep.Violations, Violation{
 						Class: "determinism", Task: t, Step: s, Op: op,
 						Detail: fmt.Sprintf("same call, run alone twice with different (legal) map iteration orders: %s  vs  %s", ref[t][s].Brief, ref2[t][s].Brief),
 						Sig:    "determinism:" + opSig(&spec.Tasks[t].Steps[s]),
 					})
+				} else if multi[t][s] {
+					rep.DetChecked++
 				}
 			}
 		}
@@ -175,7 +186,7 @@ func (h *Harness) Execute(spec *RunSpec) (*RunReport, *Outcome, error) {
 	// ---- simulation: all tasks together under the seeded scheduler, shared simulated pools
 	h.progress(spec.Run, "sim")
 	resetGlobals()
-	env, err := NewEnv(h.Resources, h.FontDir, spec.Fonts)
+	env, err := NewEnv(h.Resources, h.FontDir, spec.Fonts, false)
 	if err != nil {
 		return nil, nil, err
 	}
